@@ -421,6 +421,36 @@ pub fn gen(out: &mut Out, thorough: bool) {
         let n = gen_number(&mut out.rng);
         if let Ok(b) = json_syntax::NumberBuf::new(n.into_bytes().into()) { l(request_for(&Value::Number(b)), out); }
     }
+    // exact halfway points between adjacent doubles, spelled out in full and pushed off the tie by a
+    // digit placed after a run of zeros / nines of EVERY length class (20 … 70 000): whatever the length
+    // of the spelling, the result is the nearest double (a parser that looks at a bounded number of
+    // digits, or switches algorithm with the length, is decided here)
+    {
+        let mut n = 0u64;
+        let pads: &[usize] = if thorough { &[0, 1, 20, 300, 760, 1100, 1990, 2001, 2400, 4097, 20000, 70000] } else { &[0, 20, 300, 1100, 2001, 4097, 70000] };
+        for i in 0..(if thorough { 60 } else { 12 }) {
+            // an integer-valued halfway point: 2^53 + 2k + 1 (between 2^53 + 2k and 2^53 + 2k + 2), scaled
+            let k = out.rng.below(1 << 20);
+            let mid = (1u128 << 53) + 2 * k as u128 + 1;
+            let scale = [0usize, 1, 7, 30][i % 4];
+            let digits = format!("{}{}", mid, "0".repeat(scale));
+            for &pad in pads {
+                for (fill, last) in [("0", "1"), ("9", "9"), ("0", "0")] {
+                    let up = format!("{}.{}{}", digits, fill.repeat(pad), last);
+                    let down_int = mid - 1;
+                    let down = format!("{}{}.{}{}", down_int, "0".repeat(scale).replacen('0', "9", 1), "9".repeat(pad), "9");
+                    for num in [up, if scale == 0 { format!("{}.{}9", down_int, "9".repeat(pad)) } else { down }] {
+                        for wrap in [false, true] {
+                            let text = if wrap { format!("{}e-{}", num, 3 + i % 5) } else { num.clone() };
+                            if let Ok(b) = json_syntax::NumberBuf::new(text.into_bytes().into()) { l(request_for(&Value::Number(b)), out); n += 1; }
+                        }
+                    }
+                }
+            }
+        }
+        out.count_n("halfway_padded_numbers", n);
+        out.exhaustive.push(format!("integer-valued halfway points around 2^53 (scaled by 1, 10, 10^7, 10^30), pushed off the tie after {:?} zeros / nines, bare and with a negative exponent", pads));
+    }
     // key pairs around the UTF-16 / code point divergence, exhaustive over a boundary set
     let ks = ['\u{d7ff}', '\u{e000}', '\u{f000}', '\u{ffff}', '\u{10000}', '\u{10ffff}', 'a', '\u{7f}', '\u{80}', '\u{7ff}', '\u{800}'];
     for a in ks { for b in ks { for c in ["", "a", "\u{10000}"] {
